@@ -44,7 +44,7 @@ def scenarios(tier, seed):
                     d = dict(family=f"seq/{engine}", mode="seq", engine=engine, shape=sname, nodes=nodes, parents=parents, card=card, seq=list(seqs[i]),
                              states=C.STATE_STYLES[k % len(C.STATE_STYLES)], names="str", hashseed=k % nh, budget_s=40,
                              node_order=list(np.roll(nodes, k % len(nodes))), edge_rev=bool(k % 2), cpd_rev=bool((k // 2) % 2))
-                    if engine == "bp" and len(nodes) == 4 and tier == "quick":
+                    if len(nodes) == 4 and tier == "quick":
                         d["fixed_cpds"] = [nodes[(k + 1) % 4], nodes[(k + 2) % 4]]
                         d["fixed_seed"] = k
                     out.append(d)
@@ -59,7 +59,8 @@ def scenarios(tier, seed):
                     k += 1
                     if tier == "quick" and k % 2:
                         continue
-                    out.append(dict(family="relabel", mode="relabel", shape=sname, nodes=nodes, parents=parents, card=card, names=names, states=states,
+                    extra = dict(fixed_cpds=[nodes[(k + 1) % 4], nodes[(k + 2) % 4]], fixed_seed=k) if (len(nodes) == 4 and tier == "quick") else {}
+                    out.append(dict(budget_s=40, **extra, family="relabel", mode="relabel", shape=sname, nodes=nodes, parents=parents, card=card, names=names, states=states,
                                     node_order=list(np.roll(nodes, perm)), edge_rev=bool(perm % 2), cpd_rev=bool(k % 2), hashseed=k % nh,
                                     engine=["ve", "bp"][k % 2] if sname != "collchild" or tier != "quick" else "ve"))
     for kind in ["hc_start_dag", "hc_data", "mle_data", "bayes_data", "score_data", "convert", "writer", "sampling", "factor_ops_engine", "pc_data", "exhaustive"]:
@@ -123,7 +124,7 @@ def run_seq(desc, M):
     nodes, card = desc["nodes"], desc["card"]
     names = C.sym_names(desc) + [f"lam{i}" for i in range(card[nodes[-1]])]
     M.declare(names)
-    positive = desc["engine"] != "ve"
+    positive = True
     tabs = C.make_tables(desc, M, positive=positive)
     virt = nodes[-1]
     lam = [M.sym(f"lam{i}", lo=Fraction(1, 10), hi=1) for i in range(card[virt])]
